@@ -115,6 +115,9 @@ type hashList struct {
 type SPDX3 struct{}
 
 func (spdx3 *SPDX3) Serialize(bom *sbom.Document, _ *native.SerializeOptions, _ interface{}) (interface{}, error) {
+	if bom == nil || bom.NodeList == nil {
+		return nil, errors.New("document or its node list is nil, unable to serialize to SPDX 3.0")
+	}
 	now := time.Now()
 	spdxSBOM := sbomType{
 		Type: "Sbom",
@@ -246,7 +249,11 @@ func (spdx3 *SPDX3) Render(rawDoc interface{}, w io.Writer, o *native.RenderOpti
 		return errors.New("unable to cast SBOM as an SPDX 3.0 SBOM")
 	}
 	enc := json.NewEncoder(w)
-	enc.SetIndent("", strings.Repeat(" ", o.Indent))
+	indent := o.Indent
+	if indent < 0 {
+		indent = 0
+	}
+	enc.SetIndent("", strings.Repeat(" ", indent))
 	if err := enc.Encode(doc); err != nil {
 		return fmt.Errorf("encoding SBOM: %w", err)
 	}
